@@ -664,18 +664,19 @@ def run(tier, seed):
     samples = {i: [] for i in spec_map}
     timed_out_units = 0
     deadline = time.time() + budget
-    for sid, stats, vs, smp in pool.imap_unordered(_w_unit, [(i, u, per_unit) for i, u in units]):
-        for k, v in stats.items():
-            tot[sid][k] = tot[sid].get(k, 0) + v
-        if stats.get('timed_out'):
-            timed_out_units += 1
-        for v in vs:
-            if len(viols[sid]) < 30:
-                viols[sid].append(v)
-        if len(samples[sid]) < 3:
-            samples[sid].extend(smp)
-    pool.close()
-    pool.join()
+    try:
+        for sid, stats, vs, smp in pool.imap_unordered(_w_unit, [(i, u, per_unit) for i, u in units]):
+            for k, v in stats.items():
+                tot[sid][k] = tot[sid].get(k, 0) + v
+            if stats.get('timed_out'):
+                timed_out_units += 1
+            for v in vs:
+                if len(viols[sid]) < 30:
+                    viols[sid].append(v)
+            if len(samples[sid]) < 3:
+                samples[sid].extend(smp)
+    finally:
+        pool.terminate()
     t_explore = time.time() - t_start
     native = Native()
     per_prop = {p: {'violations': [], 'unconfirmed': []} for p in PROPS + ('PANIC',)}
